@@ -634,9 +634,15 @@ impl State {
                 .any(|f| !matches!(f, Flow::Enum(_)));
             if prev.mode != ContextMode::MetaEval || is_compiling {
                 // emit meta-evaluation result: what this block left above the stack it was opened on
+                // Bookkeeping of the build, not a step of any program: the values are taken off the
+                // stack without an entry in the reverse log (a logged pop left `PushData` entries in
+                // front of the program's first instruction, and reverse stepping to the start of the
+                // program undid them too, putting the block's results back on the stack).
                 while self.data_stack.len() > self.ctx.ds_open.max(self.ctx.ds_len) {
-                    let val = self.pop_data()?;
-                    self.code_emit_value(val)?;
+                    match self.data_stack.pop() {
+                        Some(val) => self.code_emit_value(val)?,
+                        None => break,
+                    }
                 }
             }
         }
